@@ -149,6 +149,9 @@ pub fn is_skipped_header(header: &str) -> (r: bool)
 
 /// `str::trim`: the string without leading and trailing white space (uninterpreted; trusted)
 pub uninterp spec fn trim_ws(s: Seq<char>) -> Seq<char>;
+/// (neighbouring API, declared so that a change to it fails a clause instead of leaving the unit undecided)
+pub assume_specification[ char::is_ascii_whitespace ](c: &char) -> (r: bool)
+    ensures r == (*c == ' ' || *c == '\t' || *c == '\n' || *c == '\x0C' || *c == '\r');
 pub assume_specification[ str::trim ](s: &str) -> (r: &str)
     ensures r@ == trim_ws(s@);
 
